@@ -189,6 +189,21 @@ class GaussAsym(GaussU):
         return numpy_array_to_live_points(rng.uniform(lo, hi, (n, 2)), self.names)
 
 
+class GaussOffset(GaussU):
+    """Gaussian likelihood with a large additive constant in log L (numerically extreme magnitudes: exp(log L) under- or overflows in float64)."""
+
+    def __init__(self, offset=-2000.0, **kw):
+        super().__init__(d=2, **kw)
+        self.offset = float(offset)
+
+    def _ll(self, x):
+        return GaussU._ll(self, x) + self.offset
+
+    @property
+    def true_log_evidence(self):
+        return GaussU.true_log_evidence.fget(self) + self.offset
+
+
 class GaussTN(ZooModel):
     """Product of truncated-normal priors (non-uniform) x Gaussian likelihood; analytic evidence.
 
@@ -495,6 +510,10 @@ def make(name, **kw):
         return GaussFlat(2, **kw)
     if name == "G2a":
         return GaussAsym(**kw)
+    if name == "G2o":
+        return GaussOffset(-2000.0, **kw)
+    if name == "G2p":
+        return GaussOffset(900.0, **kw)
     if name == "Ex2":
         return Ex2(2, **kw)
     if name == "Tie2":
